@@ -63,12 +63,53 @@ fn gen_case(ch: &mut Ch, thorough: bool) -> Option<Case> {
 pub struct Outcome {
     /// per derived trait: observed error message (None = impl generated)
     pub observed: Result<Vec<Option<String>>, String>,
+    /// attribute entry: comparison helper attributes still present on the re-emitted item (rustc then refuses the
+    /// program with "cannot find attribute", whatever the expander said about the traits)
+    pub leftover: Vec<String>,
+}
+
+fn leftover_helpers(items: &[expand::OutItem]) -> Vec<String> {
+    let mut out = Vec::new();
+    fn scan(attrs: &[syn::Attribute], out: &mut Vec<String>) {
+        for a in attrs {
+            if let Some(i) = a.path().get_ident() {
+                let s = i.to_string();
+                if ["ord", "partial_ord", "eq", "partial_eq", "hash"].contains(&s.as_str()) && !out.contains(&s) {
+                    out.push(s);
+                }
+            }
+        }
+    }
+    match items.first() {
+        Some(expand::OutItem::Item(syn::Item::Struct(s))) => {
+            scan(&s.attrs, &mut out);
+            for f in s.fields.iter() {
+                scan(&f.attrs, &mut out);
+            }
+        }
+        Some(expand::OutItem::Item(syn::Item::Enum(e))) => {
+            scan(&e.attrs, &mut out);
+            for v in e.variants.iter() {
+                scan(&v.attrs, &mut out);
+                for f in v.fields.iter() {
+                    scan(&f.attrs, &mut out);
+                }
+            }
+        }
+        _ => {}
+    }
+    out
 }
 
 pub fn evaluate(c: &Case) -> Outcome {
     let traits = names(&c.derived);
     let r = expand::expand_aligned(c.entry, &c.attr, &c.item, &traits);
+    let leftover = match (&r, c.entry) {
+        (Ok((items, _)), Entry::Attr) => leftover_helpers(items),
+        _ => Vec::new(),
+    };
     Outcome {
+        leftover,
         observed: match r {
             Err(e) => Err(e),
             Ok((_, Aligned::Whole(m))) => Err(format!("whole derivation failed: {m}")),
@@ -130,6 +171,17 @@ pub fn run(ctx: &Ctx, rep: &mut Report) {
                 });
             }
             Ok(obs) => {
+                if !o.leftover.is_empty() {
+                    // every generated attribute affects a derived trait (documented table), so it is one of the
+                    // attributes the macro owns: left in place, rustc answers "cannot find attribute"
+                    rep.violation(Violation {
+                        symptom: "valid-combination-rejected:helper-attribute-left-on-the-item".into(),
+                        atoms: atoms_of(c, None),
+                        what: format!("{} with derive_ex({}) via {} on {}: the re-emitted item still carries #[{}(..)]", c.combo.describe(), c.attr, c.entry.name(), c.container.name(), o.leftover.join("], #[")),
+                        detail: json!({"gen": "combo", "vector": c.vector, "entry": c.entry.name(), "attr": c.attr, "item": c.item, "leftover": o.leftover}),
+                        standalone: Some(standalone(c)),
+                    });
+                }
                 for (k, &t) in c.derived.iter().enumerate() {
                     let exp_accept = ref_accept(&c.combo, t);
                     let got_accept = obs[k].is_none();
